@@ -160,8 +160,18 @@ def check(ctx):
         ctx.ob("R2", f"spelling {sp!r}", f"maps to a token used by a reachable live production ({sorted(types)})", ok, key=f"spelling-unmapped|{sp}")
     lx = ctx.repo.module("xonsh/parsers/lexer.py")
     hn = lx.func("handle_name")
-    kw_rule = "kwmod.kwlist" in unparse(hn) and ".upper()" in unparse(hn)
-    soft = [n.value for n in ast.walk(hn) if isinstance(n, ast.Constant) and isinstance(n.value, str)]
+    # the containers of the function's membership tests, module-level tables resolved to their definitions
+    containers = []
+    for n in ast.walk(hn):
+        if isinstance(n, ast.Compare) and any(isinstance(o, (ast.In, ast.NotIn)) for o in n.ops):
+            for c_ in n.comparators:
+                containers.append(c_)
+                for x in ast.walk(c_):
+                    if isinstance(x, ast.Name) and x.id in lx.assigns:
+                        containers.append(lx.assigns[x.id][-1].value)
+    ctext = " ".join(unparse(c_) for c_ in containers)
+    kw_rule = "kwmod.kwlist" in ctext and ".upper()" in unparse(hn)
+    soft = [n.value for c_ in containers for n in ast.walk(c_) if isinstance(n, ast.Constant) and isinstance(n.value, str)]
     for kw in keyword.kwlist + [k for k in keyword.softkwlist if k != "_"]:
         ok = kw.upper() in terms and (kw_rule if kw in keyword.kwlist else kw in soft)
         ctx.ob("R2", f"keyword {kw!r}", f"is turned into token {kw.upper()} which a reachable live production uses", ok, key=f"keyword-unmapped|{kw}")
